@@ -73,7 +73,13 @@ def case(prog, params):
                     w = wit(m); res['violations'].append({'key': 'C19:parse-panics%s' % classify(w), 'text': 'parse_as_properties panics on generated text: %s (%r)' % (o.outcome[1], model_bytes(m, text)), 'witness': w})
                 continue
             if o.outcome[0] != 'return':
-                if not o.outcome[1].startswith(('domain:', 'bound:itoa')): res['inconclusive'].append({'status': o.outcome[1], 'error': str(o.outcome[2])[:200]})
+                if o.outcome[1] == 'domain:float' and kind.startswith('i128'):
+                    # the text of an integer field is handed to the float parser (outside the encoded domain): the value cannot come
+                    # back as the integer it was -- candidate violation, decided by the native replay
+                    r, m = ex.check(o.pc)
+                    if r == 'sat':
+                        w = wit(m); res['violations'].append({'key': 'C19:integer-handed-to-float-parser%s' % classify(w), 'text': 'integer field %r: its text %r is parsed as a float' % (w.get('int'), model_bytes(m, text)), 'witness': w})
+                elif not o.outcome[1].startswith(('domain:', 'bound:itoa')): res['inconclusive'].append({'status': o.outcome[1], 'error': str(o.outcome[2])[:200]})
                 continue
             v_ = o.outcome[1]
             if v_.variant != 'Ok':
